@@ -555,3 +555,171 @@ func ruleR05f(c *Ctx) {
 		"at end of input the scanner can cycle between states forever: "+strings.Join(cyc, "; "))
 	c.floor("R05f", "scanner state functions", 12, len(nodes))
 }
+
+// readSiteEOF: one particular read of the input yields eof; every other read is unknown.
+type readSiteEOF struct {
+	pf   *parseFacts
+	site *ast.CallExpr
+}
+
+func (h readSiteEOF) expr(ev *evaluator, e ast.Expr, info *types.Info) (aval, bool) {
+	return unknown, false
+}
+func (h readSiteEOF) prim(ev *evaluator, fn *types.Func, call *ast.CallExpr, st state) (aval, bool) {
+	if !h.pf.runePrims[fn] {
+		return unknown, false
+	}
+	if call == h.site {
+		return constVal(h.pf.eofConst.Val()), true
+	}
+	return unknown, true
+}
+func (h readSiteEOF) isRead(fn *types.Func) bool { return h.pf.runeReads[fn] }
+
+// R05g: a read that yields eof consumes nothing, so the scanner must not then step its position back by
+// hand (l.pos--, l.pos -= k): the token start would overtake the position and the next emit slices out of
+// range - in the scanner goroutine, where no recover can catch it.
+func ruleR05g(c *Ctx) {
+	pf := getParseFacts(c)
+	if pf == nil {
+		return
+	}
+	isLexerPos := func(e ast.Expr) bool {
+		se, ok := ast.Unparen(e).(*ast.SelectorExpr)
+		if !ok || se.Sel.Name != "pos" {
+			return false
+		}
+		tv, ok := pf.info.Types[se.X]
+		return ok && namedOf(tv.Type) != nil && pf.lexerTypes[namedOf(tv.Type)]
+	}
+	// rewinds that are safe by construction: by the width of the last read (0 at end of input), or inside an
+	// `if l.pos-k > l.start` guard that keeps the position from crossing the token start
+	guarded := map[ast.Stmt]bool{}
+	for _, fd := range pf.funcs {
+		ast.Inspect(fd.Body, func(x ast.Node) bool {
+			ifs, ok := x.(*ast.IfStmt)
+			if !ok {
+				return true
+			}
+			cond := exprKey(ifs.Cond)
+			if strings.Contains(cond, ".start") && strings.Contains(cond, ".pos") {
+				ast.Inspect(ifs.Body, func(y ast.Node) bool {
+					if st, ok := y.(ast.Stmt); ok {
+						guarded[st] = true
+					}
+					return true
+				})
+			}
+			return true
+		})
+	}
+	isRewind := func(s ast.Stmt) bool {
+		if guarded[s] {
+			return false
+		}
+		switch s := s.(type) {
+		case *ast.IncDecStmt:
+			return s.Tok == token.DEC && isLexerPos(s.X)
+		case *ast.AssignStmt:
+			if s.Tok == token.SUB_ASSIGN && isLexerPos(s.Lhs[0]) {
+				return !strings.Contains(exprKey(s.Rhs[0]), ".width")
+			}
+		}
+		return false
+	}
+	// every direct call of a rune primitive in a scanner function is a read site
+	var sites []*ast.CallExpr
+	siteFn := map[*ast.CallExpr]*types.Func{}
+	var fns []*types.Func
+	for fn, fd := range pf.funcs {
+		if !nodeScopedTo(fd, pf.info, pf.lexerTypes) || pf.runePrims[fn] {
+			continue
+		}
+		fns = append(fns, fn)
+		ffn := fn
+		ast.Inspect(fd.Body, func(x ast.Node) bool {
+			if call, ok := x.(*ast.CallExpr); ok {
+				if cal := calleeFunc(call, pf.info); cal != nil && pf.runePrims[cal] {
+					sites = append(sites, call)
+					siteFn[call] = ffn
+				}
+			}
+			return true
+		})
+	}
+	sort.Slice(fns, func(i, j int) bool { return fns[i].Name() < fns[j].Name() })
+	sort.Slice(sites, func(i, j int) bool { return sites[i].Pos() < sites[j].Pos() })
+	n := 0
+	for _, fn := range fns {
+		fd := pf.funcs[fn]
+		has := false
+		ast.Inspect(fd.Body, func(x ast.Node) bool {
+			if s, ok := x.(ast.Stmt); ok && isRewind(s) {
+				has = true
+			}
+			return true
+		})
+		if !has {
+			continue
+		}
+		n++
+		key := c.declKey("parse", fd) + "#no-rewind-after-eof-read"
+		c.seen(c.declKey("parse", fd))
+		var at, siteAt token.Pos
+		// only read sites in this function or in the functions it (transitively) calls can precede its rewinds
+		reach := map[*types.Func]bool{fn: true}
+		for work := []*types.Func{fn}; len(work) > 0; {
+			f := work[len(work)-1]
+			work = work[:len(work)-1]
+			for _, cal := range pf.calls[f] {
+				if !reach[cal] {
+					reach[cal] = true
+					work = append(work, cal)
+				}
+			}
+		}
+		for _, site := range sites {
+			if !reach[siteFn[site]] {
+				continue
+			}
+			ev := newEvaluator(c, readSiteEOF{pf, site})
+			for p := range pf.runePrims {
+				ev.watch[p.Name()] = true
+			}
+			ev.stmtHook = func(s ast.Stmt, st state, info *types.Info) *event {
+				if !isRewind(s) {
+					return nil
+				}
+				if as, ok := s.(*ast.AssignStmt); ok {
+					for _, r := range ev.evalExpr(as.Rhs[0], st, info) {
+						if r.v.k == avConst && r.v.c.Kind() == constant.Int && constant.Sign(r.v.c) == 0 {
+							return nil // stepping back by the constant 0
+						}
+					}
+				}
+				return &event{name: "rewind", pos: s.Pos()}
+			}
+			for _, cp := range ev.execBlock(fd.Body.List, state{env: env{}}, pf.info) {
+				var lastRead *ast.CallExpr
+				for _, e := range cp.st.tr.list() {
+					if e.name == "rewind" {
+						if lastRead == site && at == token.NoPos {
+							at, siteAt = e.pos, site.Pos()
+						}
+						continue
+					}
+					lastRead = e.call
+				}
+			}
+			if at != token.NoPos {
+				break
+			}
+		}
+		if at != token.NoPos {
+			c.bad("R05g", key, at, "when the read at "+c.posStr(siteAt)+" yields eof (nothing consumed) the scanner still steps its position back by hand: the token start overtakes the position and the next emit slices out of range, panicking in the scanner goroutine where no recover can catch it")
+		} else {
+			c.ok("R05g", key, fd.Pos(), fmt.Sprintf("for each of the %d read sites: when it yields eof no manual rewind follows before another read", len(sites)))
+		}
+	}
+	c.floor("R05g", "scanner functions with a manual rewind", 2, n)
+}
